@@ -2839,12 +2839,51 @@ func rulePageOwnGeometry(c *eng.Ctx) {
 					continue
 				}
 				own, stored := false, ""
-				for w := range eng.SliceInter(a, func(*ssa.Call) bool { return true }, []*ssa.Function{ff, h}) {
-					if w == frags {
-						own = true
-					}
-					if fr, ok := eng.LoadOfField(w); ok && addrRoot(w) == ssa.Value(ff.Params[0]) {
-						stored = fr.Field
+				work := []ssa.Value{a}
+				seenW := map[ssa.Value]bool{}
+				for len(work) > 0 {
+					cur := work[len(work)-1]
+					work = work[:len(work)-1]
+					for w := range eng.SliceInter(cur, func(*ssa.Call) bool { return true }, []*ssa.Function{ff, h}) {
+						if seenW[w] {
+							continue
+						}
+						seenW[w] = true
+						if w == frags {
+							own = true
+						}
+						if fr, ok := eng.LoadOfField(w); ok && addrRoot(w) == ssa.Value(ff.Params[0]) {
+							stored = fr.Field
+						}
+						// a variable of the enclosing function captured by a function literal (the keep-predicate
+						// handed to a generic filter helper): what the enclosing function put into it
+						if fv, ok := w.(*ssa.FreeVar); ok {
+							anon := fv.Parent()
+							idx := -1
+							for i, x := range anon.FreeVars {
+								if x == fv {
+									idx = i
+								}
+							}
+							if anon.Parent() != nil && idx >= 0 {
+								eng.Instrs(anon.Parent(), false, func(in ssa.Instruction) {
+									mc, ok := in.(*ssa.MakeClosure)
+									if !ok || mc.Fn != ssa.Value(anon) || idx >= len(mc.Bindings) {
+										return
+									}
+									b := mc.Bindings[idx]
+									if cell, ok := b.(*ssa.Alloc); ok {
+										for _, r := range *cell.Referrers() {
+											if st, ok := r.(*ssa.Store); ok && st.Addr == ssa.Value(cell) {
+												work = append(work, st.Val)
+											}
+										}
+									} else {
+										work = append(work, b)
+									}
+								})
+							}
+						}
 					}
 				}
 				c.Check(own && stored == "", R, fmt.Sprintf("layout.(*HeaderFooterResult).FilterFragments#charLevel%d", m), ci.Pos(), "decided from the page's own fragments",
@@ -2853,7 +2892,31 @@ func rulePageOwnGeometry(c *eng.Ctx) {
 		}
 	}
 	if m == 0 {
-		c.Undec(R, "layout.(*HeaderFooterResult).FilterFragments#charLevel", ff.Pos(), "no character-level argument found")
+		// no such flag is handed on (a strategy object chosen per call instead): the decision is still this page's own
+		// when FilterFragments asks isCharacterLevel about its own fragments and reads no remembered flag
+		asksOwn, remembered := false, ""
+		for _, h := range eng.Cluster(ff, 1) {
+			if h.Pkg != ff.Pkg {
+				continue
+			}
+			for _, ci := range eng.CallsNamed(h, true, "layout.isCharacterLevel") {
+				for _, a := range ci.Common().Args {
+					for w := range eng.SliceInter(a, nil, []*ssa.Function{ff, h}) {
+						if w == frags {
+							asksOwn = true
+						}
+					}
+				}
+			}
+		}
+		eng.Instrs(ff, true, func(in ssa.Instruction) {
+			if v, ok := in.(ssa.Value); ok {
+				if fr, ok := eng.LoadOfField(v); ok && addrRoot(v) == ssa.Value(ff.Params[0]) && strings.Contains(strings.ToLower(fr.Field), "char") {
+					remembered = fr.Field
+				}
+			}
+		})
+		c.Check(asksOwn && remembered == "", R, "layout.(*HeaderFooterResult).FilterFragments#charLevel", ff.Pos(), "isCharacterLevel is asked about the page's own fragments", "whether the page is character-level is not decided from the fragments of the page being filtered (remembered field "+remembered+")")
 	}
 }
 
